@@ -57,6 +57,28 @@ def main():
         (failed if bad else passed).add(tid)
     os.unlink(junit)
     missing = sorted(stable - passed)
+    if missing and workers and len(missing) <= 50:
+        # timing-sensitive tests are flaky under parallel load: re-run those serially before judging
+        nodes = []
+        for m in missing:
+            cls, name = m.split("::", 1)
+            parts = cls.split(".")
+            for k in range(len(parts), 0, -1):
+                f = os.path.join(repo, *parts[:k]) + ".py"
+                if os.path.exists(f):
+                    nodes.append("::".join([os.path.join(*parts[:k]) + ".py", *parts[k:], name]))
+                    break
+        fd, junit2 = tempfile.mkstemp(suffix=".xml", dir=os.path.join(env.VERIF, ".cache"))
+        os.close(fd)
+        cmd2 = [env.PY, "-m", "pytest", "-q", "-p", "no:cacheprovider", "--timeout=900", f"--junitxml={junit2}"] + nodes
+        subprocess.run(cmd2, cwd=repo, env=e, capture_output=True, text=True)
+        for tc in ET.parse(junit2).getroot().iter("testcase"):
+            tid = f"{tc.get('classname')}::{tc.get('name')}"
+            if not any(ch.tag in ("failure", "error", "skipped") for ch in tc):
+                passed.add(tid)
+        os.unlink(junit2)
+        print(f"re-ran {len(nodes)} stable tests serially")
+        missing = sorted(stable - passed)
     print(tail)
     print(f"stable_pass={len(stable)} passed_now={len(passed)} stable_not_passing={len(missing)} "
           f"newly_passing={len(passed - stable)}")
